@@ -482,6 +482,19 @@ func (env *Env) tr(x ast.Expr) *SVal {
 					return e.load(env.state(), e.elemAddr(e.aggRef(xv), i, at.Elem()))
 				}
 			}
+		case KMap:
+			// m[k]: the stored value, or the zero value if there is no entry (as in Go)
+			if mt, ok := xv.Typ.Underlying().(*types.Map); ok {
+				if cls, ks, ok := e.mapClasses(mt); ok && !(isAggregate(mt.Elem()) && kindOf(mt.Elem()) != KStruct) {
+					k := e.mapKeyTerm(e.coerce(iv, mt.Key()), mt.Key())
+					h := e.get(env.state(), cls+"#has", Arr(RefS, Arr(ks, BoolS)))
+					saved := e.cur
+					e.cur = env.state()
+					val := e.mapLoadVal(cls, ks, xv.T, k, mt.Elem())
+					e.cur = saved
+					return e.iteVal(c.Select(c.Select(h, xv.T), k), val, e.zero(mt.Elem()))
+				}
+			}
 		}
 		env.fail(x, "unsupported index expression")
 	case *ast.TypeAssertExpr:
@@ -587,6 +600,28 @@ func (env *Env) ident(n *ast.Ident) *SVal {
 				return env.fr.vals[p]
 			}
 		}
+	}
+	if n.Name == "rangeindex" && env.loop == nil && env.fr != nil && env.atInstr != nil {
+		// in an at-clause: the hidden index of the innermost for-range loop around the call
+		var best *loopInfo
+		for _, li := range env.fr.loops {
+			if !li.body[env.atInstr.Block()] || (best != nil && len(li.body) >= len(best.body)) {
+				continue
+			}
+			for _, p := range li.phis {
+				if p.Comment == "rangeindex" {
+					best = li
+				}
+			}
+		}
+		if best != nil {
+			for _, p := range best.phis {
+				if p.Comment == "rangeindex" {
+					return env.fr.vals[p]
+				}
+			}
+		}
+		env.fail(n, "rangeindex: the call is not inside a for-range loop")
 	}
 	obj := env.info.Uses[n]
 	if v, ok := env.vars[n.Name]; ok {
